@@ -45,29 +45,34 @@ def configs(tier):
                                  mode='delay')))
   four.append(('queue', dict(prods=[1, 1, 1], cap=1, cons=['get'],
                              mode='delay')))
+  deep = [c for c in two if c[1]['cons'][0] in ('get', ['bbatch', 2],
+                                                ['bbatch', 3])
+          and c[1]['prods'] == [2] and c[1].get('declared', True)
+          and c[1]['cap'] < 2]
+  shallow = [c for c in two if c not in deep]
+  three_q = [c for c in three if c[1]['cap'] == 1 and (
+      c[1]['cons'] in (['get'], [['bbatch', 2]], ['get', 'get'],
+                       ['get', ['bbatch', 2]]))]
+  three_q.append(('queue', dict(prods=[2], cap=0, cons=['get', 'get'])))
   if tier == 'quick':
-    deep = [c for c in two if c[1]['cons'][0] in ('get', ['bbatch', 2],
-                                                  ['bbatch', 3])
-            and c[1]['prods'] == [2] and c[1].get('declared', True)
-            and c[1]['cap'] < 2]
-    shallow = [c for c in two if c not in deep]
-    three_q = [c for c in three if c[1]['cap'] == 1 and (
-        c[1]['cons'] in (['get'], [['bbatch', 2]], ['get', 'get'],
-                         ['get', ['bbatch', 2]]))]
-    three_q.append(('queue', dict(prods=[2], cap=0, cons=['get', 'get'])))
     return [('2 threads, preemption bound 2', 2, deep),
             ('2 threads (remaining consumer modes), preemption bound 1', 1, shallow),
             ('3 threads, preemption bound 1', 1, three_q),
             ('4 threads, delay bound 1', 1, four)]
-  # thorough: deeper bounds, 3 items, capacity 2
+  # thorough: one more preemption on the same groups, 3 items, capacity 2, the
+  # remaining 3-thread configurations; cheapest groups first (the check has a
+  # wall-clock budget; what it cuts is reported as a cap)
   two_t = []
   for cap in (0, 1, 2):
     for m in ('get', ['batch', 0], ['bbatch', 2], 'iter'):
       two_t.append(('queue', dict(prods=[3], cap=cap, cons=[m])))
-  return [('2 threads, preemption bound 3', 3, two),
-          ('2 threads / 3 items, preemption bound 2', 2, two_t),
-          ('3 threads, preemption bound 2', 2, three),
-          ('4 threads, delay bound 2', 2, four)]
+  rest3 = [c for c in three if c not in three_q]
+  return [('4 threads, delay bound 2', 2, four),
+          ('3 threads (remaining configurations), preemption bound 1', 1, rest3),
+          ('2 threads (remaining consumer modes) and 3 items, preemption bound 2',
+           2, shallow + two_t),
+          ('3 threads, preemption bound 2', 2, three_q),
+          ('2 threads, preemption bound 3', 3, deep)]
 
 
 def run(ctx):
